@@ -38,6 +38,16 @@ CritLevels == <<"Mises", "Hill", "Hosford", "Drucker 1949", "Isotropic Cazacu 20
                 "MohrCoulomb", "GursonTvergaardNeedleman1982", "RousselierTanguyBesson2002", "MichelAndSuquet1992HollowSphere">>
 IhrLevels == <<"none", "Linear", "Swift", "Power", "Voce", "Data", "DataSpline", "UserDefined", "UserDefinedAD", "StrainRateSensitive", "StrainRateSensitiveJC">>
 KhrLevels == <<"none", "Prager", "Armstrong-Frederick", "Burlet-Cailletaud", "Chaboche 2012", "DRS">>
+\* several kinematic hardening rules in one flow (their back strains are coupled through the normal): composite levels, used by the
+\* extra configurations only; the second rule has its own coefficients
+CompositeKhr == {"Armstrong-Frederick+Armstrong-Frederick", "Prager+Armstrong-Frederick", "Armstrong-Frederick+Chaboche 2012"}
+KhrParts(k) == CASE k = "Armstrong-Frederick+Armstrong-Frederick" -> <<"Armstrong-Frederick", "Armstrong-Frederick">>
+                 [] k = "Prager+Armstrong-Frederick" -> <<"Prager", "Armstrong-Frederick">>
+                 [] k = "Armstrong-Frederick+Chaboche 2012" -> <<"Armstrong-Frederick", "Chaboche 2012">>
+                 [] OTHER -> <<k>>
+SecondKhrParams(k) ==
+  CASE k = "Armstrong-Frederick" -> P(<< <<"C", <<12, 1>>>>, <<"D", <<48, 1>>>> >>, "")
+    [] k = "Chaboche 2012" -> P(<< <<"C", <<12, 1>>>>, <<"D", <<48, 1>>>>, <<"m", <<2, 1>>>>, <<"w", <<3, 5>>>> >>, "")
 Potentials == {"Hooke", "IsotropicDamage", "DDIF2"}
 Nucleations == {"Chu-Needleman 1980 (strain)", "Chu-Needleman 1980 (stress)", "PowerLaw (strain)", "PowerLaw (stress)"}
 PorosityAlgorithms == {"standard implicit scheme", "staggered scheme"}
@@ -116,6 +126,7 @@ ExtraConfigs ==
   {Cfg(p, f, "Mises", DefaultIhr(f), "none", "none", "none", FALSE, "Tridimensional") : p \in {"IsotropicDamage", "DDIF2"}, f \in {"Plastic", "Norton"}}
   \cup {Cfg("StandardElasticity", "none", "Mises", "none", "none", "none", "none", FALSE, h) : h \in {"Tridimensional", "PlaneStress", "AxisymmetricalGeneralisedPlaneStress"}}
   \cup {Cfg("Hooke", f, "Mises", DefaultIhr(f), k, "none", "none", FALSE, h) : f \in {"Plastic", "Norton"}, k \in {"none", "Armstrong-Frederick"}, h \in StressHyps}
+  \cup {Cfg("Hooke", f, "Mises", DefaultIhr(f), k, "none", "none", FALSE, "Tridimensional") : f \in {"Plastic", "Norton"}, k \in CompositeKhr}
   \* porosity: every porous criterion with every nucleation model, both algorithms, with and without the elastic contribution
   \cup {Cfg("Hooke", "Plastic", c, "Linear", "none", n, a, FALSE, "Tridimensional") : c \in PorousCriteria, n \in Nucleations, a \in PorosityAlgorithms}
   \cup {Cfg("Hooke", f, c, DefaultIhr(f), "none", "none", a, e, "Tridimensional") : f \in {"Plastic", "Norton"}, c \in PorousCriteria, a \in PorosityAlgorithms, e \in BOOLEAN}
@@ -125,6 +136,7 @@ QuickExtras ==
    Cfg("StandardElasticity", "none", "Mises", "none", "none", "none", "none", FALSE, "PlaneStress"),
    Cfg("StandardElasticity", "none", "Mises", "none", "none", "none", "none", FALSE, "AxisymmetricalGeneralisedPlaneStress"),
    Cfg("Hooke", "Plastic", "Mises", "Linear", "Armstrong-Frederick", "none", "none", FALSE, "PlaneStress"),
+   Cfg("Hooke", "Plastic", "Mises", "Linear", "Armstrong-Frederick+Armstrong-Frederick", "none", "none", FALSE, "Tridimensional"),
    Cfg("Hooke", "Plastic", "GursonTvergaardNeedleman1982", "Linear", "none", "Chu-Needleman 1980 (strain)", "standard implicit scheme", FALSE, "Tridimensional")}
 \* self-test probe: a hand-written Norton law (harness/mfront/lab/LabNortonImplicit.mfront) whose block dfp_ddeel is
 \* deliberately off by 50 %: the machinery must report that block and no other
